@@ -36,13 +36,16 @@ func init() {
 // C37: block processing never halts the chain.
 func TestC37(t *testing.T) {
 	run := ev.Start("C37")
-	nHist, nOps := run.Pick(24, 300), run.Pick(700, 2000)
+	nHist, nOps := run.Pick(25, 300), run.Pick(700, 2000)
 	// hostileqos: consumers sign QoS excellence reports with any values the report validation lets through
 	hq := profRep(3)
 	hq.Name = "hostileqos"
 	hq.W["rep_relay"], hq.W["rep_relay_astro"], hq.W["month"] = 10, 30, 1
 	hq.W["rep_param"], hq.W["rep_decay"], hq.W["rep_param_any"] = 0, 0, 3 // (the C24 ops keep the half-life in a safe range)
-	profiles := []*Profile{profEconomic(), profUnusual(), {Name: "default", Providers: 6, Consumers: 3, Delegators: 2, Validators: 2, KeepPools: true}, hq}
+	// subsdirected: the subscription profile opened by the failed-renewal prologue (plan versions around a renewal that cannot be paid)
+	sd := profSubs()
+	sd.Name, sd.Prologue = "subsdirected", prologueFailedRenewal
+	profiles := []*Profile{profEconomic(), profUnusual(), {Name: "default", Providers: 6, Consumers: 3, Delegators: 2, Validators: 2, KeepPools: true}, hq, sd}
 	for h := 0; h < nHist; h++ {
 		prof := profiles[h%len(profiles)]
 		var pm *PanicMon
